@@ -162,6 +162,101 @@ class Body:
                     stack.append(s)
         return seen
 
+    def _const_assigns(self):
+        """Per block: ordered list of (local, value|None) effects on whole locals (None = unknown / killed)."""
+        if getattr(self, "_ca", None) is not None:
+            return self._ca
+        borrowed = set()
+        for b in range(self.nblocks):
+            for s in self.blocks[b]["stmts"]:
+                if s["k"] == "assign" and s["rv"]["k"] in ("ref", "rawptr") and s["rv"].get("bk", "mut") == "mut" and not s["rv"]["place"].get("p"):
+                    borrowed.add(s["rv"]["place"]["l"])
+        ca = []
+        for b in range(self.nblocks):
+            eff = []
+            for s in self.blocks[b]["stmts"]:
+                if s["k"] != "assign" or s["place"].get("p"):
+                    continue
+                l = s["place"]["l"]
+                rv = s["rv"]
+                if rv["k"] == "use" and rv["op"].get("k") == "const" and "val" in rv["op"] and l not in borrowed:
+                    eff.append((l, rv["op"]["val"]))
+                elif rv["k"] == "use" and rv["op"].get("k") in ("copy", "move") and not rv["op"]["place"].get("p") and l not in borrowed:
+                    eff.append((l, ("copyof", rv["op"]["place"]["l"])))
+                else:
+                    eff.append((l, None))
+            t = self.blocks[b]["term"]
+            if t["k"] == "call" and not t["dest"].get("p"):
+                eff.append((t["dest"]["l"], None))
+            ca.append(eff)
+        self._ca = ca
+        return ca
+
+    def reachable_cp(self, start=0, env=None, without_edge=None, without_blocks=(), limit=4000):
+        """Path-sensitive reachability: constants assigned to whole locals are propagated along each path and a
+        switch on a local with a known constant follows only the matching edge (drop flags, `matches!` temporaries)."""
+        ca = self._const_assigns()
+        wb = set(without_blocks)
+        seen_states = set()
+        out = set()
+        st = [(start, tuple(sorted((env or {}).items())))]
+        n = 0
+        while st:
+            b, envt = st.pop()
+            if b in wb or (b, envt) in seen_states:
+                continue
+            n += 1
+            if n > limit:
+                return self.reachable(start, without_edge, without_blocks)
+            seen_states.add((b, envt))
+            out.add(b)
+            e = dict(envt)
+            for (l, v) in ca[b]:
+                if isinstance(v, tuple):
+                    v = e.get(v[1])
+                if v is None:
+                    e.pop(l, None)
+                else:
+                    e[l] = v
+            t = self.blocks[b]["term"]
+            nxt = self.succs(b)
+            if t["k"] == "switch" and t["op"].get("k") in ("copy", "move") and not t["op"]["place"].get("p"):
+                v = e.get(t["op"]["place"]["l"])
+                if v is not None:
+                    tgt = t["otherwise"]
+                    for val, tb in t["targets"]:
+                        if val == v:
+                            tgt = tb
+                    nxt = [tgt]
+            # only keep knowledge about locals that are switched on somewhere (bounds the state space)
+            keep = self._switch_locals()
+            et = tuple(sorted((k, v) for k, v in e.items() if k in keep))
+            for s in nxt:
+                if without_edge and (b, s) == without_edge:
+                    continue
+                st.append((s, et))
+        return out
+
+    def _switch_locals(self):
+        if getattr(self, "_swl", None) is None:
+            sw = set()
+            for b in range(self.nblocks):
+                t = self.blocks[b]["term"]
+                if t["k"] == "switch" and t["op"].get("k") in ("copy", "move") and not t["op"]["place"].get("p"):
+                    sw.add(t["op"]["place"]["l"])
+            # and locals copied into them
+            changed = True
+            ca = self._const_assigns()
+            while changed:
+                changed = False
+                for eff in ca:
+                    for (l, v) in eff:
+                        if l in sw and isinstance(v, tuple) and v[1] not in sw:
+                            sw.add(v[1])
+                            changed = True
+            self._swl = sw
+        return self._swl
+
     def live_blocks(self):
         if self._reach is None:
             self._reach = self.reachable(0)
